@@ -311,3 +311,17 @@ Proof.
       rewrite <- !app_assoc. cbn [app]. rewrite split_encoded_then_space.
       cbn [app]. f_equal. apply IH.
 Qed.
+
+(** ---- the wire form of an argument is at most twice its length plus the two quotes ------------ *)
+Lemma encode_char_length c : (1 <= length (encode_char c) <= 2)%nat.
+Proof. unfold encode_char. destruct (c =? c_dquote); [cbn; lia|]. destruct (c =? c_bslash); cbn; lia. Qed.
+
+Lemma encode_length s :
+  (length s + 2 <= length (encode_quoted_str s) <= 2 * length s + 2)%nat.
+Proof.
+  unfold encode_quoted_str. rewrite !app_length. cbn [length].
+  assert (H : (length s <= length (flat_map encode_char s) <= 2 * length s)%nat).
+  { induction s as [|c r IH]; cbn [flat_map length]; [lia|].
+    rewrite app_length. pose proof (encode_char_length c). lia. }
+  lia.
+Qed.
